@@ -264,7 +264,7 @@ func (p *Peer) Close() {
 func (p *Peer) NextSeq() uint32 {
 	p.mu.Lock()
 	defer p.mu.Unlock()
-	p.seq++
+	p.seq = (p.seq + 1) & 0xFFFFFF // sequence numbers are 24 bits on the wire
 
 	return p.seq
 }
